@@ -147,7 +147,7 @@ def kc_directed(rng):
     and incomplete setups asked twice.  Over every option profile and getter."""
     out = []
     for (dual, nbfl, ncck, bayes) in kc_profiles():
-        getters = [0, 1, 2, 3, 4, 5, 6, 7, 8, 11] if not dual else [0, 11]
+        getters = [0, 1, 2, 3, 4, 5, 6, 7, 8, 9, 11] if not dual else [0, 11]
         names = ['setData', 'setLHS', 'setRHS', 'setVar'] + (['setBayes'] if bayes else []) + (['setColCokUnique'] if ncck else [])
         for g in getters:
             D = KCData(rng, 3, nbfl, 2, ncck)
@@ -162,6 +162,9 @@ def kc_directed(rng):
                 for a in ARGS[n]:
                     if a in ('X', 'X0') and nbfl == 0: continue
                     out.append(([42, dual, kc_setup(D, bayes, skip=[n]) + [kc_set(D, n, drop=[a]), [20, g], [20, g]]], 'drop:' + a))
+            if ncck > 0:     # colocation switched off by a null argument
+                out.append(([42, dual, base + [kc_set(D, 'setColCokUnique', drop=['Zp']), [20, g]]], 'colcok-off'))
+                if g == 9: out.append(([42, dual, base + [kc_set(D, 'setColCokUnique', drop=['Zp']), [20, 9], [20, 10]]], 'colcok-off'))
             if nbfl > 0:
                 out.append(([42, dual, kc_setup(D, bayes, skip=['setLHS']) + [kc_set(D, 'setLHS', drop=['X']), [20, g], [20, g]]], 'nullX'))
                 out.append(([42, dual, base + [[20, g], kc_set(D, 'setLHS', drop=['X']), [20, g]]], 'dropX'))
@@ -619,8 +622,9 @@ def vt_program(rng, nh, nops, codes, detaches):
         elif o[0] == 1: hd[o[1]], hd[o[2]] = hd[o[2]], hd[o[1]]
         else:
             name, f = VT_CODES[o[1]]
-            if detaches[name]: det(o[2])
-            l = heap[hd[o[2]]]; m = f(o[3], o[4], o[5])
+            m = f(o[3], o[4], o[5])
+            if detaches[name] and not (m[0] == 3 and m[1] == len(heap[hd[o[2]]])): det(o[2])     # resize to the present size returns at once
+            l = heap[hd[o[2]]]
             if m[0] == 0: l.append(m[1])
             elif m[0] == 1:
                 if m[1] < len(l): l[m[1]] = m[2]
@@ -1108,6 +1112,13 @@ def run(ctx):
                        'wrong dimension); every get* of every history is compared with the same get* on a fresh object given the inputs in force; '
                        'distinct = distinct history prefix ending in a get')
     if not proofs_ok: proof_break_violation(ctx, found)
+    ctx.cov['trusted_base'] += [
+        'translators/C10_kcgraph.py, C10_vectort.py, C10_optimpaths.py: regex/brace-matching readers of the C++ sources; fail closed on unknown constructs; '
+        'C10_kcgraph is additionally tied at run time: after every operation of every history the set of non-null cached members and the status of every get '
+        'of the real object must equal what the extracted model of the generated graph predicts',
+        'harness/C10.cpp reads private members of KrigingCalcul (#define private public) to know the inputs in force; a fresh object is built from them through the public set* calls',
+        'C10_lazy_coherent is about Herbrand terms (what was read to compute what): equal terms give equal numbers in C++ because each _need body is a deterministic function of what it reads',
+    ]
     ctx.assumptions = ['the dimension parameters _neq/_nbfl/_nrhs of a KrigingCalcul object are constants of the object (dimension lock); histories keep one dimension profile',
                        'X->invert() on a dense square matrix cannot report a failure in this tree (checked by the translator on AMatrix::invert / AMatrixDense::_invert)',
                        'values are compared between two executions of the same code on the same data: tolerance 1e-11 relative']
